@@ -442,6 +442,13 @@ def run(tier, seed):
     wall_s = time.time() - t0
     if agg["cells"] == 0:
         herrs.append("no cells evaluated")
+    dropped = agg.get("not_run_wall_cap", 0)
+    if agg["states"] < max(check.NPROC, n // 10):
+        # a run that covered next to nothing is not a pass (the machine was too loaded)
+        herrs.append("only %d of %d states ran within the wall cap of %ds" % (agg["states"], n, wall))
+    missing = [k for k in ("json", "xml", "rdf", "provn") if not any(l.startswith(k + ":") for l in agg["labels"])]
+    if missing and agg["states"] >= 500:
+        herrs.append("no cell at all for format(s) %s" % missing)
     ev = {
         "property_id": "C16", "tier": tier, "seed": seed, "level": "exploration",
         "coverage": {
@@ -472,6 +479,8 @@ def run(tier, seed):
                                                    json.dumps(v["detail"], default=repr)[:900]))
     for he in herrs[:5]:
         print("HARNESS-ERROR: %s" % he[:3000])
+    if dropped:
+        print("C16 %s: %d of %d states were not run (wall cap %ds)" % (tier, dropped, n, wall))
     print("C16 %s: states=%d cells=%d distinct=%d violations=%d known=%d wall=%.1fs" % (
         tier, agg["states"], agg["cells"], len(distinct), len(reported), len(attributed), wall_s))
     return 1 if reported else (2 if herrs else 0)
